@@ -335,7 +335,7 @@ impl Src {
             Ty::Struct(ms) => {
                 let mut decls = Vec::new();
                 for (k, m) in ms.iter().enumerate() {
-                    let (mut pre, base, suffix) = self.spell(m);
+                    let (mut pre, mut base, suffix) = self.spell(m);
                     let mut name = format!("m{}{}", k, suffix);
                     // member decorations that must not change the layout: `static` (the compiler treats and emits a
                     // static member as an ordinary one), `precise`, interpolation modifiers, semantics
@@ -346,6 +346,16 @@ impl Src {
                             2 if matches!(m, Ty::Scalar('f') | Ty::Vec('f', _)) => pre = "precise ".into(),
                             3 if matches!(m, Ty::Scalar('f') | Ty::Vec('f', _)) => pre = "nointerpolation ".into(),
                             4 if matches!(m, Ty::Scalar(_) | Ty::Vec(..)) => name = format!("{} : TEXCOORD{}", name, k),
+                            // the member's type through a typedef, plain or of the const-qualified type (then the member's
+                            // type id is a `Modifier` layer: `const` itself is not a valid modifier of a field)
+                            5 | 6 if !matches!(m, Ty::Mat(..)) => {
+                                let id = self.next;
+                                self.next += 1;
+                                let c = self.choose(salt, 12) == 5;
+                                self.lines.push(format!("typedef {}{} {}T{};", if c { "const " } else { "" }, base, if c { "C" } else { "P" }, id));
+                                base = format!("{}T{}", if c { "C" } else { "P" }, id);
+                            }
+                            7 => pre = "[[c19]] ".into(),
                             _ => {}
                         }
                     }
@@ -354,16 +364,33 @@ impl Src {
                 let id = self.next;
                 self.next += 1;
                 let variant = self.choose(id as u64 * 31 + 13, 9);
-                let member = |d: &(String, String, String)| format!(" {}{} {};", d.0, d.1, d.2);
-                let body: String = decls.iter().map(member).collect();
+                // several declarators in one member declaration (`float m0, m1[2];`), stray semicolons
+                let merge = self.choose(id as u64 * 31 + 19, 3) == 1;
+                let stray = self.choose(id as u64 * 31 + 23, 5) == 1;
+                let join = |ds: &[(String, String, String)]| -> String {
+                    let mut out = String::new();
+                    let mut k = 0;
+                    while k < ds.len() {
+                        let d = &ds[k];
+                        out.push_str(&format!(" {}{} {}", d.0, d.1, d.2));
+                        k += 1;
+                        while merge && k < ds.len() && ds[k].0 == d.0 && ds[k].1 == d.1 && !d.2.contains(':') && !ds[k].2.contains(':') {
+                            out.push_str(&format!(", {}", ds[k].2));
+                            k += 1;
+                        }
+                        out.push_str(if stray { ";;" } else { ";" });
+                    }
+                    out
+                };
+                let body: String = join(&decls);
                 let name;
                 match variant {
                     3 => {
                         self.lines.push(format!("namespace N{} {{ struct S{} {{{} }}; }}", id, id, body));
                         name = format!("N{}::S{}", id, id);
                     }
-                    4 if !decls.is_empty() && decls[0].0.is_empty() && !decls[0].2.contains('[') => {
-                        let rest: String = decls[1..].iter().map(member).collect();
+                    4 if !decls.is_empty() && decls[0].0.is_empty() && !decls[0].2.contains('[') && !decls[0].1.starts_with("CT") => {
+                        let rest: String = join(&decls[1..]);
                         self.lines.push(format!(
                             "template<typename T> struct S{} {{ T m0;{} }};", id, rest
                         ));
@@ -371,8 +398,8 @@ impl Src {
                     }
                     5 if decls.len() >= 2 => {
                         let j = 1 + self.choose(id as u64 * 31 + 17, decls.len() as u64 - 1) as usize;
-                        let base: String = decls[..j].iter().map(member).collect();
-                        let rest: String = decls[j..].iter().map(member).collect();
+                        let base: String = join(&decls[..j]);
+                        let rest: String = join(&decls[j..]);
                         self.lines.push(format!(
                             "struct B{} {{{} }}; struct S{} : B{} {{{} }};", id, base, id, id, rest
                         ));
@@ -387,6 +414,15 @@ impl Src {
                     7 => {
                         self.lines.push(format!("struct S{} {{{} }}; typedef S{} T{};", id, body, id, id));
                         name = format!("T{}", id);
+                    }
+                    // two base structs (their members come first, in the order of the base list)
+                    8 if decls.len() >= 2 => {
+                        let j = 1 + self.choose(id as u64 * 31 + 17, decls.len() as u64 - 1) as usize;
+                        self.lines.push(format!(
+                            "struct B{}a {{{} }}; struct B{}b {{{} }}; struct S{} : B{}a, B{}b {{{} float len{}() {{ return 1.0; }} }};",
+                            id, join(&decls[..1]), id, join(&decls[1..j]), id, id, id, join(&decls[j..]), id
+                        ));
+                        name = format!("S{}", id);
                     }
                     _ => {
                         self.lines.push(format!("struct S{} {{{} }};", id, body));
@@ -480,6 +516,12 @@ pub enum Real {
 
 /// verdict of compile() with validation on; locations are 1-based line numbers of main.rssl
 fn run_real_lines(src: &str, target: &str, pipeline_mode: bool) -> Real {
+    run_real_opts(src, target, pipeline_mode, false)
+}
+
+/// `opt`: the other values of compile()'s options that must not matter to validation: debug source information, a user
+/// define, buffer addresses supported only when the program uses one, the pipeline picked by name (`P`)
+fn run_real_opts(src: &str, target: &str, pipeline_mode: bool, opt: bool) -> Real {
     let text = src.to_string();
     let tgt = match target {
         "dx" => rssl::Target::HlslForDirectX,
@@ -489,10 +531,17 @@ fn run_real_lines(src: &str, target: &str, pipeline_mode: bool) -> Real {
     let r = guard(move || {
         let mut files = [("main.rssl", text.as_str())];
         let mut args = rssl::CompileArgs::new("main.rssl", &mut files, tgt)
-            .support_buffer_address(matches!(tgt, rssl::Target::HlslForVulkan))
+            .support_buffer_address(matches!(tgt, rssl::Target::HlslForVulkan) && (!opt || text.contains("BufferAddress ")))
             .validate_layout_consistency(true);
         if !pipeline_mode {
             args = args.no_pipeline_mode();
+        }
+        let defs = [("C19_EXTRA", "1")];
+        if opt {
+            args = args.source_info(true).defines(&defs);
+            if pipeline_mode {
+                args = args.pipeline_name(Some("P"));
+            }
         }
         match rssl::compile(args) {
             Ok(_) => Ok(()),
@@ -967,11 +1016,24 @@ fn oracle(tys: &[Ty], real: &Real) -> (String, String) {
 pub const GLOBAL_KINDS: &[&str] = &[
     "sb", "rwsb", "sbc", "sbtd", "sbreg", "sbarr", "rwsbarr", "sbarr2", "sbarru", "sbbl", "sbtdarr", "sbarrtd", "sbarrtd2", "sbmem",
     "sbparam", "cb", "cbuf", "gv", "gs", "st",
+    // wave 11: other declaration forms of the same things
+    "sbmulti", "sbns", "sbst", "sbex", "sblocal", "cbmem",
 ];
+/// how compile() is called: np / pipe as before; npo = no pipeline mode + source_info + a user define + buffer addresses
+/// supported only when a site needs them; pname = two pipelines in the file, `pipeline_name` selects one, source_info
+pub const MODES: &[&str] = &["np", "pipe", "npo", "pname"];
 pub const FN_KINDS: &[&str] = &[
     "bload", "bload2", "rwbload", "rwbload2", "rwbstore", "rwbstoret", "baload", "rwbaload", "rwbastore", "rwbastoret",
 ];
-pub const WRAPS: &[&str] = &["m", "u", "t", "t0", "me", "p", "a", "gi", "da", "ex", "dt", "dta"];
+pub const WRAPS: &[&str] = &[
+    "m", "u", "t", "t0", "me", "p", "a", "gi", "da", "ex", "dt", "dta",
+    // wave 11: pd (default argument on a PROTOTYPE that is never defined) pf (prototype first, body after main)
+    // ns (function in a namespace) lp (inside for / if of an uncalled function) tt (template instantiated from another
+    // template) two (one function template instantiated twice: an agreeing struct first) tm (method of a struct template,
+    // instantiated by naming W<S>) mt (method template) sl (initialiser of a static local) hb (raw buffer that is a member
+    // of a global struct)
+    "pd", "pf", "ns", "lp", "tt", "two", "tm", "mt", "sl", "hb",
+];
 
 #[derive(Clone, Debug)]
 pub struct Site {
@@ -985,6 +1047,8 @@ pub struct Site {
 pub struct Prog {
     pub target: String,
     pub pipe: bool,
+    /// the option variant of the mode (npo / pname)
+    pub opt: bool,
     pub style: u64,
     pub tys: Vec<Ty>,
     pub sites: Vec<Site>,
@@ -998,11 +1062,20 @@ fn show_site(s: &Site) -> String {
     }
 }
 
+pub fn mode_name(p: &Prog) -> &'static str {
+    match (p.pipe, p.opt) {
+        (false, false) => "np",
+        (true, false) => "pipe",
+        (false, true) => "npo",
+        (true, true) => "pname",
+    }
+}
+
 pub fn show_prog(p: &Prog) -> String {
     format!(
         "C19.prog\t{}:{}:{}\t{}\t{}",
         p.target,
-        if p.pipe { "pipe" } else { "np" },
+        mode_name(p),
         p.style,
         p.tys.iter().map(show).collect::<Vec<_>>().join(";"),
         p.sites.iter().map(show_site).collect::<Vec<_>>().join(",")
@@ -1014,7 +1087,7 @@ pub fn parse_prog(f: &[&str]) -> Option<Prog> {
         return None;
     }
     let h: Vec<&str> = f[1].split(':').collect();
-    if h.len() != 3 || !["vk", "dx", "msl"].contains(&h[0]) || !["np", "pipe"].contains(&h[1]) {
+    if h.len() != 3 || !["vk", "dx", "msl"].contains(&h[0]) || !MODES.contains(&h[1]) {
         return None;
     }
     let style: u64 = h[2].parse().ok()?;
@@ -1031,7 +1104,7 @@ pub fn parse_prog(f: &[&str]) -> Option<Prog> {
             None => (lhs, ""),
         };
         let mut good = if wrap.is_empty() { GLOBAL_KINDS.contains(&kind) } else { FN_KINDS.contains(&kind) && WRAPS.contains(&wrap) };
-        if ["gi", "da", "dt", "dta"].contains(&wrap) && !["bload", "rwbload", "baload", "rwbaload"].contains(&kind) {
+        if ["gi", "da", "dt", "dta", "pd", "sl"].contains(&wrap) && !["bload", "rwbload", "baload", "rwbaload"].contains(&kind) {
             good = false;
         }
         if wrap == "ex" && !["bload", "bload2", "rwbload", "rwbload2", "baload", "rwbaload"].contains(&kind) {
@@ -1068,7 +1141,7 @@ pub fn parse_prog(f: &[&str]) -> Option<Prog> {
             }
         }
     }
-    Some(Prog { target: h[0].into(), pipe: h[1] == "pipe", style, tys, sites })
+    Some(Prog { target: h[0].into(), pipe: h[1] == "pipe" || h[1] == "pname", opt: h[1] == "npo" || h[1] == "pname", style, tys, sites })
 }
 
 /// where a diagnostic line points
@@ -1116,6 +1189,13 @@ fn prog_source(p: &Prog) -> (String, ProgLines) {
             "sbparam" => format!("void fparam{}(StructuredBuffer<{}> p) {{}}", i, a),
             "cb" => format!("ConstantBuffer<{}> g{};", a, i),
             "cbuf" => format!("cbuffer CB{} {{ {} cbm{}; }}", i, n, i),
+            "sbmulti" => format!("StructuredBuffer<{}> g{}x[2], g{};", a, i, i),
+            "sbns" => format!("namespace NG{} {{ StructuredBuffer<{}> g{}; }}", i, a, i),
+            "sbst" => format!("static StructuredBuffer<{}> g{};", a, i),
+            "sbex" => format!("extern StructuredBuffer<{}> g{};", a, i),
+            // a local variable of buffer type: declared in main (below); like a parameter it is not a buffer that exists
+            "sblocal" => continue,
+            "cbmem" => format!("struct H{} {{ StructuredBuffer<{}> p; float q; }}; ConstantBuffer<H{}> g{};", i, a, i, i),
             "gv" => format!("{} g{};", n, i),
             "gs" => format!("groupshared {} g{}[2];", n, i),
             _ => format!("static {} g{};", n, i),
@@ -1139,7 +1219,7 @@ fn prog_source(p: &Prog) -> (String, ProgLines) {
         ("BufferAddress", "gba"),
         ("RWBufferAddress", "grwba"),
     ] {
-        if needs(&|x| obj_of(&x.kind).1 == var && !["p", "me", "a"].contains(&x.wrap.as_str())) {
+        if needs(&|x| obj_of(&x.kind).1 == var && !["p", "me", "a", "hb"].contains(&x.wrap.as_str())) {
             s.lines.push(format!("{} {};", obj, var));
         }
         if needs(&|x| obj_of(&x.kind).1 == var && x.wrap == "a") {
@@ -1178,6 +1258,26 @@ fn prog_source(p: &Prog) -> (String, ProgLines) {
                 "template<typename T> void ft{}() {{ {} }}", i, stmts(site, i, var, "T")
             )),
             "gi" => s.lines.push(format!("static {} gi{} = {}.Load<{}>(0);", n, i, var, targ(n))),
+            "pd" => s.lines.push(format!("float fpd{}(uint q = sizeof({}.Load<{}>(0)));", i, var, targ(n))),
+            "pf" => s.lines.push(format!("void fpf{}();", i)),
+            "ns" => s.lines.push(format!("namespace NF{} {{ void f() {{ {} }} }}", i, stmts(site, i, var, n))),
+            "lp" => s.lines.push(format!(
+                "void flp{}() {{ for (uint k = 0; k < 2; ++k) {{ if (k == 1) {{ {} }} }} }}", i, stmts(site, i, var, n)
+            )),
+            "tt" => s.lines.push(format!(
+                "template<typename T> void ft{}() {{ {} }} template<typename T> void ftt{}() {{ ft{}<T>(); }}",
+                i, stmts(site, i, var, "T"), i, i
+            )),
+            "two" => s.lines.push(format!(
+                "struct Z{} {{ float z; }}; template<typename T> void ft{}() {{ {} }}", i, i, stmts(site, i, var, "T")
+            )),
+            "tm" => s.lines.push(format!(
+                "template<typename T> struct W{} {{ float q; void run() {{ {} }} }};", i, stmts(site, i, var, "T")
+            )),
+            "mt" => s.lines.push(format!(
+                "struct W{} {{ float q; template<typename T> void run() {{ {} }} }};", i, stmts(site, i, var, "T")
+            )),
+            "hb" => s.lines.push(format!("struct HB{} {{ {} b; }}; HB{} ghb{};", i, obj, i, i)),
             "da" => s.lines.push(format!(
                 "float fda{}(uint q = sizeof({}.Load<{}>(0))) {{ return 0; }}", i, var, targ(n)
             )),
@@ -1201,6 +1301,17 @@ fn prog_source(p: &Prog) -> (String, ProgLines) {
             "m" => s.lines.push(format!("  {}", stmts(site, i, var, n))),
             "a" => s.lines.push(format!("  {}", stmts(site, i, &format!("{}_a[1]", var), n))),
             "t" => s.lines.push(format!("  ft{}<{}>();", i, targ(n))),
+            "tt" => s.lines.push(format!("  ftt{}<{}>();", i, targ(n))),
+            "two" => s.lines.push(format!("  ft{}<Z{}>(); ft{}<{}>();", i, i, i, targ(n))),
+            "tm" => s.lines.push(format!("  W{}<{}> w{};", i, targ(n), i)),
+            "mt" => s.lines.push(format!("  W{} w{}; w{}.run<{}>();", i, i, i, targ(n))),
+            "sl" => s.lines.push(format!("  static {}", stmts(site, i, var, n))),
+            "hb" => s.lines.push(format!("  {}", stmts(site, i, &format!("ghb{}.b", i), n))),
+            "pf" => s.lines.push(format!("  fpf{}();", i)),
+            "" if site.kind == "sblocal" => {
+                s.lines.push(format!("  StructuredBuffer<{}> l{};", targ(n), i));
+                site_line[i] = s.lines.len();
+            }
             "ex" => s.lines.push(match site.kind.as_str() {
                 "bload2" | "rwbload2" => format!("  uint st{}; sizeof({}.Load<{}>(0, st{}));", i, var, targ(n), i),
                 _ => format!("  sizeof({}.Load<{}>(0));", var, targ(n)),
@@ -1209,7 +1320,20 @@ fn prog_source(p: &Prog) -> (String, ProgLines) {
         }
     }
     s.lines.push("}".into());
+    // bodies that come after main (their prototypes stand before it)
+    for (i, site) in p.sites.iter().enumerate() {
+        if site.wrap == "pf" {
+            let (_obj, var) = obj_of(&site.kind);
+            s.lines.push(format!("void fpf{}() {{ {} }}", i, stmts(site, i, var, &names[site.ty])));
+        }
+    }
     if p.pipe {
+        if p.opt {
+            // a second pipeline that is not the one asked for, declared first
+            s.lines.push("[numthreads(1, 1, 1)]".into());
+            s.lines.push("void main2() {}".into());
+            s.lines.push("Pipeline Q { ComputeShader = main2; }".into());
+        }
         s.lines.push("Pipeline P { ComputeShader = main; }".into());
     }
     (s.lines.join("\n") + "\n", ProgLines { site_line, type_line })
@@ -1219,10 +1343,10 @@ fn prog_source(p: &Prog) -> (String, ProgLines) {
 fn property_site(site: &Site) -> Option<Option<&'static str>> {
     if site.wrap.is_empty() {
         match site.kind.as_str() {
-            "sb" | "rwsb" | "sbc" | "sbtd" | "sbreg" => Some(None),
+            "sb" | "rwsb" | "sbc" | "sbtd" | "sbreg" | "sbmulti" | "sbns" | "sbst" | "sbex" => Some(None),
             "sbarr" | "rwsbarr" | "sbarr2" | "sbarru" | "sbbl" | "sbtdarr" => Some(Some("site-sbarr")),
             "sbarrtd" | "sbarrtd2" => Some(Some("site-sbarr-typedef")),
-            "sbmem" => Some(Some("site-sbmem")),
+            "sbmem" | "cbmem" => Some(Some("site-sbmem")),
             // a parameter type is not a buffer: the buffer is whatever global is passed. constant buffers, cbuffer
             // members and plain variables are not named by the property
             _ => None,
@@ -1252,7 +1376,7 @@ fn show_label(line: Option<usize>, lines: &ProgLines) -> String {
 fn run_prog(p: &Prog, out: &mut Out, hist: &mut Hist) {
     let req = show_prog(p);
     let (src, lines) = prog_source(p);
-    let real = run_real_lines(&src, &p.target, p.pipe);
+    let real = run_real_opts(&src, &p.target, p.pipe, p.opt);
     let line = match &real {
         Real::Unknown(l) | Real::Mismatch(l, _) => *l,
         _ => None,
@@ -1293,7 +1417,7 @@ fn run_prog(p: &Prog, out: &mut Out, hist: &mut Hist) {
         eprintln!("--- {}\n{}", req, src);
     }
     hist.add(&format!("prog-class:{}", class));
-    hist.add(&format!("prog-target:{}:{}", p.target, if p.pipe { "pipe" } else { "np" }));
+    hist.add(&format!("prog-target:{}:{}", p.target, mode_name(p)));
     hist.add(&format!("prog-style:{}", if p.style == 0 { "plain" } else { "varied" }));
     hist.add(&format!("prog-types:{}", p.tys.len()));
     hist.add(&format!("prog-sites:{}", p.sites.len()));
@@ -1621,7 +1745,7 @@ fn all_sites() -> Vec<(String, String)> {
         for w in WRAPS {
             let plain_load = ["bload", "rwbload", "baload", "rwbaload"].contains(k);
             let load = plain_load || ["bload2", "rwbload2"].contains(k);
-            if (["gi", "da", "dt", "dta"].contains(w) && !plain_load) || (*w == "ex" && !load) {
+            if (["gi", "da", "dt", "dta", "pd", "sl"].contains(w) && !plain_load) || (*w == "ex" && !load) {
                 continue;
             }
             v.push((k.to_string(), w.to_string()));
@@ -1710,6 +1834,7 @@ fn prog_streams(args: &Args, rng: &mut Rng, out: &mut Out, hist: &mut Hist) {
     let mk = |target: &str, pipe: bool, style: u64, tys: Vec<Ty>, ss: Vec<(&(String, String), usize)>| Prog {
         target: target.into(),
         pipe,
+        opt: false,
         style,
         tys,
         sites: ss.into_iter().map(|(s, k)| Site { kind: s.0.clone(), wrap: s.1.clone(), ty: k }).collect(),
@@ -1899,6 +2024,7 @@ fn sharing_streams(args: &Args, rng: &mut Rng, out: &mut Out, hist: &mut Hist) {
     let mk = |target: &str, pipe: bool, style: u64, tys: Vec<Ty>, ss: Vec<((String, String), usize)>| Prog {
         target: target.into(),
         pipe,
+        opt: false,
         style,
         tys,
         sites: ss.into_iter().map(|(s, k)| Site { kind: s.0, wrap: s.1, ty: k }).collect(),
